@@ -66,7 +66,7 @@ HARNESSES = [
   'oracle': 'do_command receives, per line that has one, (first word, rest trimmed) of the part before #; blank and comment-only '
             'lines are skipped; every line is processed in order',
   'bounds': {'quick': {'defs': {'LMAX': 5, 'L2MAX': 2}, 'unwind': 10, 'unwindset': {_RCF_OUTER: 4}, 'cap': 600},
-             'thorough': {'defs': {'LMAX': 8, 'L2MAX': 3}, 'unwind': 13, 'unwindset': {_RCF_OUTER: 4}, 'cap': 3000}}},
+             'thorough': {'defs': {'LMAX': 8, 'L2MAX': 3}, 'unwind': 15, 'unwindset': {_RCF_OUTER: 4}, 'cap': 3000}}},
  {'id': 'c04_command_lastline',
   'property': 'C04',
   'src': 'c04_command_file.cxx',
